@@ -19,6 +19,7 @@ import glob
 import importlib
 import inspect
 import os
+import signal
 import warnings
 import numpy as np
 
@@ -98,11 +99,14 @@ def ref_state(P, t):
         return u0 * (1.0 + 0.05 * np.cos(3.0 * t + 0.3 * np.arange(u0.size).reshape(u0.shape))) + 0.01 * np.sin(t + np.arange(u0.size).reshape(u0.shape))
 
 
-def check_class(name, cls, tier, rng):
-    """returns (list of failed clause strings, number of cases, uncovered reason or None)"""
+def check_class(name, cls, tier, rng, extra=None, event_time=None):
+    """returns (list of failed clause strings, number of cases, uncovered reason or None); `extra`: non-default constructor parameters;
+    `event_time`: the class' switch time attribute is set to it and the solver contract is checked exactly at, just before and just after it"""
     fails, cases = [], 0
     try:
-        P = cls(**PARAMS.get(name, {}))
+        P = cls(**dict(PARAMS.get(name, {}), **(extra or {})))
+        if event_time is not None:
+            P.t_switch = event_time
     except Exception as e:
         return [], 0, f'cannot instantiate: {type(e).__name__}: {str(e)[:80]}'
     try:
@@ -160,8 +164,9 @@ def check_class(name, cls, tier, rng):
     factors = [0.0, 1e-6, 1e-3, 1e-1, 1.0] + ([1e2] if name in LINEAR else [])
     if tier == 'quick':
         factors = [0.0, 1e-3, 1e-1] + ([1e2] if name in LINEAR else [])
+    times = (0.0, 0.3) if event_time is None else (event_time, float(np.nextafter(event_time, -np.inf)), float(np.nextafter(event_time, np.inf)), 0.5 * event_time)
     for factor in factors:
-        for t in (0.0, 0.3):
+        for t in times:
             cases += 1
             # an admissible, smooth state: blend of two exact states (random noise would excite unresolved modes of spectral classes)
             us = P.dtype_u(P.u_exact(0.0))
@@ -246,11 +251,43 @@ def split_siblings(rng):
     return out, cases
 
 
+class _Timeout(BaseException):
+    pass
+
+
+def _alarm(*a):
+    raise _Timeout()
+
+
+def variants(name, cls):
+    """(tag, kwargs for check_class): one-at-a-time perturbations of the float-valued constructor defaults, and event-time histories"""
+    out = []
+    try:
+        sig = inspect.signature(cls.__init__)
+    except (TypeError, ValueError):
+        return out
+    for pn, p in sig.parameters.items():
+        if pn in ('self', 'newton_tol', 'lintol', 'lin_tol', 'liniter', 'newton_maxiter', 'solver_tol', 'relative_tolerance', 'eps', 'radius', 'interval', 'L', 'x0', 'xend', 'nu') or pn in PARAMS.get(name, {}):  # nu is an exponent: other values change admissibility
+            continue
+        d = p.default
+        if isinstance(d, float) and np.isfinite(d) and d != 0 and not isinstance(d, bool):
+            out.append((f'{pn}={d * 1.7 + 0.13:g}', dict(extra={pn: d * 1.7 + 0.13})))
+        elif isinstance(d, int) and not isinstance(d, bool) and pn in ('lam', 'mu', 'alpha', 'Vs', 'Rs', 'k', 'A', 'D', 'eps_param', 'dw', 'lambda0', 'c'):
+            out.append((f'{pn}={d + 1}', dict(extra={pn: d + 1})))  # integer-valued parameters stay integers (exponents)
+    if len(out) > 4:
+        out = out[:4]
+    if hasattr(cls, 'get_switching_info') and name in ('DiscontinuousTestODE',):
+        out.append(('t_switch=1.2', dict(event_time=1.2)))
+        out.append(('t_switch=0.7', dict(event_time=0.7)))
+    return out
+
+
 def bounded_problem_contracts(tier, seed):
     warnings.filterwarnings('ignore')
     rng = np.random.RandomState(seed + 21)
     found, failed_imports = discover()
     obs, uncovered, total = [], [], 0
+    nvariants = [0]
     for name, cls in found:
         if name in SKIP:
             uncovered.append(f'{name}: {SKIP[name]}')
@@ -263,6 +300,24 @@ def bounded_problem_contracts(tier, seed):
         if why:
             uncovered.append(f'{name}: {why}')
             continue
+        # non-default constructor parameters, one at a time (a term that vanishes or coincides for the default value must still be right), and
+        # the event time of the discontinuous classes set by an earlier event detection (history)
+        for tag, kw in variants(name, cls):
+            signal.signal(signal.SIGALRM, _alarm)
+            signal.alarm(20)
+            try:
+                f2, c2, why2 = check_class(name, cls, 'quick', rng, **kw)
+            except _Timeout:
+                f2, c2, why2 = [], 0, 'time limit'
+                uncovered.append(f'{name}[{tag}]: variant skipped after 20 s')
+            except Exception as e:
+                f2, c2, why2 = [], 0, f'harness error {type(e).__name__}'
+            finally:
+                signal.alarm(0)
+            if why2 is None:
+                total += c2
+                fails = fails + [f'[{tag}] {x}' for x in f2]
+                nvariants[0] += 1
         kinds = dict(solve_defect=[f for f in fails if 'relative defect' in f or 'raised' in f and 'solve_system' in f],
                      arguments_and_results=[f for f in fails if 'modified' in f or 'alias' in f or 'returned' in f or 'fresh' in f or 'reproducible' in f],
                      exact_solution=[f for f in fails if 'u_exact' in f and 'reproducible' not in f])
@@ -277,7 +332,7 @@ def bounded_problem_contracts(tier, seed):
                     model=dict(first=sp[:5]) if sp else None, reason='', path=0, counted=False))
     return dict(contract='bounded:problem_classes', prop='C12', inst={}, label='bounded', kind='bounded', obligations=obs, canaries=[], paths=1, status='ok',
                 bounded=dict(what='solver contract (defect of the returned solution, arguments untouched, fresh results), eval_f contract, split siblings, closed-form solutions',
-                             bound=f'{(len(obs) - 1) // 3} classes x factors incl. 0 x 2 times, random admissible states (seeded)', cases=total, failures=sum(1 for o in obs if o['status'] != 'proved'),
+                             bound=f'{(len(obs) - 1) // 3} classes (+ {nvariants[0]} variants with one non-default float parameter or a set event time) x factors incl. 0 x 2 times, random admissible states (seeded)', cases=total, failures=sum(1 for o in obs if o['status'] != 'proved'),
                              covered=sorted(set(o['name'].split(':')[1] for o in obs[:-1])), uncovered=uncovered, not_importable=[f'{a}: {b}' for a, b in failed_imports]))
 
 
